@@ -196,6 +196,8 @@ def concrete_list(path: Path, t: Term, depth: int = 0) -> Optional[List[Term]]:
         for i, x in enumerate(out):
             for sb in subterms(x, lambda y: y[0] == "sub" and _is_var(y[1], t) and number(y[2]) is not None):
                 k = int(number(sb[2]))
+                if k < 0:
+                    k = i + k        # counted from the end of the list as it was when this element was appended
                 if 0 <= k < i:
                     x = subst(x, {sb: out[k]})
             out[i] = x
